@@ -10,6 +10,11 @@ Decided with spec/MeshGeom.tla (+ MeshGeomTrace.tla):
     harness' float reference (ref_cot) is validated in the same traces.
  4. generated meshes (Device.make_mesh on boxes / ellipses / unions / resampled outlines, holes, terminals x mesh
     settings x coherence lengths) are recorded as one-state traces of quantised integers; MeshGeom!GenAll decides.
+ 5. histories (spec/DevHeap.tla): chains of Device operations on meshed devices (copy / deepcopy / copy.copy,
+    translate in place or not, rotate, scale, the translation() context manager, make_mesh again) are enumerated by
+    TLC (invariant MeshMatchesOwnOutline; the in-place-shifted shared mesh must violate it), replayed on real devices,
+    and after every operation EVERY live device's mesh is validated against ITS OWN film / holes / terminals
+    (MeshGeom!GenPlaced through DevHeapTrace).
 """
 import copy
 import json
@@ -101,16 +106,40 @@ def run(ctx):
     small = dict(b, BasisIds=b["BasisIds"][:1], Offsets=[1], Families=["block"])
     ctx.model_check("MeshGeom", mg.model_cfg(small, ["CanaryInteriorCellsTile"]),
                     name="MeshGeom[cells without boundary completion must not tile]", expect_violation="CanaryInteriorCellsTile", count=False)
+    # ---- histories of Device operations: design + export
+    hb = dict(MaxDevs=3, MaxOps=3, HOps=mg.HOPS)
+    ctx.cov["bounds"]["DevHeap"] = dict(hb, thorough_extra="MaxDevs=4, MaxOps=4 (sampled replay), MaxOps=5 checked with VIEW")
+    rh = ctx.model_check("DevHeap", mg.heap_cfg(hb, mg.HCLAUSES + ["HEmit"], export=True, view=False),
+                         name="DevHeap[clauses + history export]", required_actions=list(mg.HACTION.values()))
+    histories = mg.parse_histories(rh)
+    ctx.model_check("DevHeap", mg.heap_cfg(dict(hb, MaxOps=2), ["MeshMatchesOwnOutline"], rebuild=False),
+                    name="DevHeap[a mesh object shifted in place must break MeshMatchesOwnOutline]",
+                    expect_violation="MeshMatchesOwnOutline", count=False)
+    hrnd = random.Random(ctx.seed * 13 + 5)
+    short = [c for c in histories if len(c) == 2]          # every chain of two operations (their prefixes come along)
+    long_ = [c for c in histories if len(c) == 3]
+    hrnd.shuffle(long_)
+    if ctx.quick:
+        histories = short + long_[:120]
+    else:
+        r4 = ctx.model_check("DevHeap", mg.heap_cfg(dict(hb, MaxDevs=4, MaxOps=4), mg.HCLAUSES + ["HEmit"], export=True, view=False),
+                             name="DevHeap[MaxDevs=4, MaxOps=4, history export]", timeout=1200)
+        h4 = [c for c in mg.parse_histories(r4) if len(c) == 4]
+        hrnd.shuffle(h4)
+        ctx.model_check("DevHeap", mg.heap_cfg(dict(hb, MaxDevs=4, MaxOps=5), mg.HCLAUSES), name="DevHeap[MaxDevs=4, MaxOps=5, VIEW]", timeout=1200)
+        histories = short + long_ + h4[:1500]
+    ctx.cov["histories_replayed"] = len(histories)
     # ---- spec -> code and natural meshes, in one pool
     per = 40
     jobs = [("exact_traces", dict(instances=instances[k:k + per])) for k in range(0, len(instances), per)]
     gens = gen_matrix(ctx)
     jobs += [("gen_trace", g) for g in gens]
+    jobs += [("hist_trace", dict(chain=c, device=["barhole", "ellipse"][n % 2])) for n, c in enumerate(histories)]
     res = mg.run_batches(ctx, jobs, batch=6 if ctx.quick else 12)      # separate interpreters: a crash is an observation
-    exact, gen, refused, invalid, crashed = [], [], [], [], []
+    exact, gen, refused, invalid, crashed, hist = [], [], [], [], [], []
     for x in res:
         for t in (x if isinstance(x, list) else [x]):
-            {"exact": exact, "gen": gen, "refused": refused, "invalid": invalid, "crashed": crashed}[t["kind"]].append(t)
+            {"exact": exact, "gen": gen, "refused": refused, "invalid": invalid, "crashed": crashed, "hist": hist}[t["kind"]].append(t)
     ctx.cov["meshes_generated"] = len(gen)
     ctx.cov["descriptions_skipped_as_ill_formed"] = len(invalid)
     ctx.cov["mesh_generator_crashes"] = [t["key"] for t in crashed][:5]
@@ -122,7 +151,20 @@ def run(ctx):
     # ---- 3/4. code -> spec
     acc_e = mg.validate_parallel(ctx, exact, "exact")
     acc_g = mg.validate_parallel(ctx, gen, "generated", chunk=max(4, len(gen) // 8 + 1), nthreads=8)
-    ctx.cov["traces_validated_against_impl"] += len(acc_e) + len(acc_g)
+    acc_h = mg.validate_parallel(ctx, hist, "histories", chunk=max(10, len(hist) // 8 + 1), nthreads=8,
+                                 module="DevHeapTrace", cfg=mg.heap_trace_cfg())
+    ctx.cov["traces_validated_against_impl"] += len(acc_e) + len(acc_g) + len(acc_h)
+    for t in hist:
+        ctx.note_case(t["key"], True)
+    report_hist(ctx, hist, acc_h)
+    opc = {}
+    for t in hist:
+        for e in t["ev"][1:]:
+            opc[e["op"]] = opc.get(e["op"], 0) + 1
+    ctx.cov["history_operations_executed"] = opc
+    ctx.cov["histories_cut_short_by_a_refused_make_mesh"] = sum(1 for t in hist if t.get("truncated_by_refusal"))
+    if not ctx.violations and any(o not in opc for o in mg.HOPS):
+        raise core.MachineryFailure(f"C07: history operations never executed: {[o for o in mg.HOPS if o not in opc]}")
     for n, t in enumerate(exact):
         ctx.note_case(t["key"], True)
     for t in gen:
@@ -144,8 +186,11 @@ def run(ctx):
                     "dual/edge (x1e6)": exact[n]["ob"]["R"], "areas (x1e6)": exact[n]["ob"]["A"]})
     for t in okg[:3]:
         ctx.sample({"generated": json.loads(t["key"]), "stats": t["stats"], "terminals": t["TERM"]})
+    for n in sorted(acc_h)[:1]:
+        ctx.sample({"history": hist[n]["key"], "observations": [{"op": e["op"], "has_mesh": e["has"]} for e in hist[n]["ev"]]})
     try:
         canaries(ctx, exact, acc_e, gen, acc_g)
+        hist_canaries(ctx, hist, acc_h)
     except core.MachineryFailure:
         if not ctx.violations:
             raise
@@ -189,6 +234,56 @@ def report(ctx, traces, accepted, clauses, what, limit=4):
     ctx.cov[f"rejected_{what}_inputs"] = [traces[n]["key"][:300] for n in rejected][:40]
     if len(rejected) > limit:
         ctx.cov["further_rejected_traces_not_diagnosed"] = ctx.cov.get("further_rejected_traces_not_diagnosed", 0) + len(rejected) - limit
+
+
+def report_hist(ctx, hist, accepted, limit=4):
+    rejected = [n for n in range(len(hist)) if n not in accepted]
+    ctx.cov["rejected_histories"] = len(rejected)
+    ctx.cov["rejected_histories_inputs"] = [hist[n]["key"] for n in rejected][:40]
+    for n in rejected[:limit]:
+        t = hist[n]
+        far, violated, tail = ctx.diagnose_trace("DevHeapTrace", mg.strip_trace(t), mg.heap_trace_cfg(mg.HDIAG))
+        e = t["ev"][far - 1] if 0 < far <= len(t["ev"]) else {}
+        clause = ",".join(v[2:] for v in violated) if violated else "not-a-behaviour-of-DevHeap"
+        detail = ""
+        for g in e.get("gs", []):
+            off = sum(1 for a, b in zip(g["BS"], g["OS"]) if a != b)
+            if off or not all(g["TIN"]) or any(abs(x["len"] - x["cover"]) > 2 * x["maxedge"] + 2 for x in g["TERM"]):
+                detail += (f" device {g['dev']}: {off} of {len(g['BS'])} sites boundary/outline mismatch, "
+                           f"{sum(1 for x in g['TIN'] if not x)} of {len(g['TIN'])} triangles outside its film, terminals {g['TERM']};")
+        ctx.violation(f"C07:history:{clause}:{t['key']}",
+                      f"C07 (history): after step {far} ({e.get('op')}({e.get('d')})) of [{t['key']}] a live device's mesh no longer matches "
+                      f"its own film/holes/terminals: clause {clause};{detail} mesh/no mesh per device {e.get('has')}"[:1500],
+                      {"trace": t, "stuck_at": far, "violated": violated, "tlc_tail": tail})
+    if len(rejected) > limit:
+        ctx.cov["further_rejected_traces_not_diagnosed"] = ctx.cov.get("further_rejected_traces_not_diagnosed", 0) + len(rejected) - limit
+
+
+def hist_canaries(ctx, hist, acc_h):
+    rnd = random.Random(ctx.seed + 11)
+    cand = [n for n in sorted(acc_h) if len(hist[n]["ev"]) >= 3 and len(hist[n]["ev"][-1]["gs"]) >= 2]
+    if not cand:
+        raise core.MachineryFailure("C07: no accepted history can carry a canary")
+    bad = []
+    t = copy.deepcopy(mg.strip_trace(hist[rnd.choice(cand)]))     # the mesh of the first device displaced by (1500, -500) quanta
+    g = t["ev"][-1]["gs"][0]
+    g["P"] = [[x + 1500, y - 500] for x, y in g["P"]]
+    g["OS"] = [False] * len(g["OS"])
+    bad.append(t)
+    t = copy.deepcopy(mg.strip_trace(hist[rnd.choice(cand)]))     # mesh / no mesh misreported
+    t["ev"][-1]["has"][0] = not t["ev"][-1]["has"][0]
+    bad.append(t)
+    t = copy.deepcopy(mg.strip_trace(hist[rnd.choice(cand)]))     # a terminal that lost its boundary edges
+    for e in t["ev"]:
+        for g in e["gs"]:
+            if g["TERM"]:
+                g["TERM"][0]["len"] = 0
+    if any(g["TERM"] for e in t["ev"] for g in e["gs"]):
+        bad.append(t)
+    acc, r = ctx.validate_traces("DevHeapTrace", bad, mg.heap_trace_cfg(), name="canaries (corrupted histories)", count=False)
+    if acc:
+        raise core.MachineryFailure(f"C07: corrupted histories {sorted(acc)} were accepted — the binding is vacuous")
+    ctx.cov["canaries_rejected"] += len(bad)
 
 
 def canaries(ctx, exact, acc_e, gen, acc_g):
@@ -248,6 +343,16 @@ def replay(ctx, path):
         print(f"replay file {path} records a model-level counterexample:\n{rec.get('counterexample', '')[:3000]}")
         return 1
     tdgl = core.import_tdgl()
+    if t["kind"] == "hist":
+        new = mg.hist_trace(tdgl, dict(chain=t["chain"], device=t["device"]), None)
+        acc, r = ctx.validate_traces("DevHeapTrace", [mg.strip_trace(new)], mg.heap_trace_cfg(), name="replay")
+        if acc:
+            print(f"replay: the recorded history is now accepted (property {ctx.pid} holds on it)")
+            return 0
+        report_hist(ctx, [new], set())
+        for v in ctx.violations:
+            print(f"VIOLATION property={ctx.pid} replay={v['replay']}\n  what: {v['what']}")
+        return 1
     if t["kind"] == "exact":
         inst = {"name": "replayed", "b": 0, "o": 0, "m": 0, "n": 0, "exp": {"P": t["P"], "T": t["T"]}}
         new = mg.exact_observation(tdgl, inst)
